@@ -152,6 +152,11 @@ def combos(chk, tier):
     out.append(("krome-kida-mixture+nograin", [d / "el.krome", d / "el.kida"], ["krome", "kida"], "", {}, E))
     out.append(("kida-krome-mixture+nograin", [d / "el.kida", d / "el.krome"], ["kida", "krome"], "", {}, E))
     out.append(("no-hydrogen+nograin", [d / "noh.naunet"], ["naunet"], "", {}, E))
+    # modifiers written without a single blank, longer than a source line: the statement wrapper has nowhere to break them
+    long_ = "2.5e3*zeta*pow(Tgas/300.0,0.5)*(1.0+1.0e+2/Tgas)*(1.0+2.0e+3*Tgas)*(1.0+1.0e+4*Tgas)/(1.0+3.0e+2*Tgas)*sqrt(1.0+4.0e+1/Tgas)"
+    out.append(("long-blank-free-modifiers+nograin", [d / "noh.naunet"], ["naunet"], "",
+                {"rate_modifier": {1: long_, 3: "1.5*" + long_},
+                 "ode_modifier": {"C": {"factors": ["-1.0e-3*" + long_], "reactants": [["C"]]}}}, E))
     out.append(("helium-only+nograin", [d / "heonly.naunet"], ["naunet"], "", {}, E))
     out.append(("krome-d-intrinsics+nograin", [d / "intrinsics.krome"], ["krome"], "", {}, KE))
     out.append(("krome-late-directives+nograin", [d / "late.krome"], ["krome"], "", {}, KE))
